@@ -98,6 +98,11 @@ func c17Reference(ifs []IfSpec, routes []RouteSpec, target *cidr, ifaceFlag, src
 		}
 		return nil
 	}
+	if srcmacFlag != "" {
+		if _, err := net.ParseMAC(srcmacFlag); err != nil {
+			return nil // an unusable override is an error, never "fall back to the automatic choice"
+		}
+	}
 	if ifaceFlag != "" {
 		ifc := byName(ifaceFlag)
 		if ifc == nil {
@@ -264,6 +269,9 @@ func runC17(t *testing.T, c simrt.Chooser, o Opts) *Out {
 	}
 	if p.pct("srcmac", 25) {
 		sc.SrcMAC = fmt.Sprintf("06:aa:bb:cc:dd:%02x", p.n("srcmacb", 256))
+		if p.pct("badsrcmac", 8) {
+			sc.SrcMAC = []string{"06:aa:bb:cc:dd", "06-aa-bb-cc-dd-zz", "auto"}[p.n("badmacv", 3)]
+		}
 	}
 	// ---- world / argv -------------------------------------------------------------------------
 	w := &WorldSpec{Files: map[string]string{}, CloseWakes: true, Ifs: ifs, Routes: routes, NumCPU: p.pick("numcpu", 1, 4)}
@@ -291,6 +299,14 @@ func runC17(t *testing.T, c simrt.Chooser, o Opts) *Out {
 	}
 	if sc.SrcMAC != "" {
 		argv = append(argv, "--srcmac", sc.SrcMAC)
+	}
+	// other options that are parsed after the overrides and must not disturb them
+	if p.pct("excludeopt", 30) {
+		w.Files[excludeFn] = "192.0.2.200\n# nothing of the target\n233.252.0.0/24\n"
+		argv = append(argv, "--exclude", excludeFn)
+	}
+	if p.pct("rateopt", 15) {
+		argv = append(argv, "--rate", "1000/s")
 	}
 	argv = append(argv, "--exit-delay", "5ms")
 	if target != nil {
